@@ -15,7 +15,10 @@ use std::sync::{Arc, Mutex};
 use std::time::{Duration, Instant};
 
 const UNIT_LIMIT: Duration = Duration::from_secs(120);
-const SOLO_LIMIT: Duration = Duration::from_secs(180);
+const SOLO_LIMIT: Duration = Duration::from_secs(60);
+/// After this many worker deaths / timeouts the campaign stops handing out units: a tree on which
+/// most cases hang or abort is reported from the first few instead of being waited out
+const DEATH_BREAKER: usize = 16;
 
 pub fn verif_dir() -> std::path::PathBuf {
     std::path::PathBuf::from(std::env::var("RSSL_SIM_VERIF").unwrap_or_else(|_| "/verif".into()))
@@ -293,8 +296,10 @@ fn findings_of(ctx_args: (&str, Tier, u64), w: &mut Option<Worker>, case: &Case)
 /// death of the compiler is reported under C08 as well unless the check is C07 (where "dies under
 /// one key only" cannot be told apart here and the C08 check covers the input anyway)
 fn abort_property(case: &Case) -> String {
-    let _ = case;
-    "C08".to_string()
+    // reported under the property whose check met it: for C08 it is the statement itself; for
+    // the other checks a compiler that dies gives neither the result the model predicts (C12,
+    // C14) nor a result that can equal another execution's (C07)
+    case.check.clone()
 }
 
 // -------------------------------------------------------------------------------------------
@@ -687,6 +692,9 @@ pub fn check(check: &str, tier: Tier) -> i32 {
         handles.push(std::thread::spawn(move || {
             let mut worker: Option<Worker> = None;
             loop {
+                if shared.agg.lock().unwrap().deaths.len() >= DEATH_BREAKER {
+                    break;
+                }
                 let n = shared.next.fetch_add(1, Ordering::SeqCst);
                 if n >= shared.units {
                     break;
@@ -733,26 +741,58 @@ pub fn check(check: &str, tier: Tier) -> i32 {
 
     // Worker deaths: attribute to a case by running each case of the unit alone in a fresh child
     let deaths = std::mem::take(&mut agg.deaths);
-    for (unit, d) in deaths {
+    let total_deaths = deaths.len();
+    if total_deaths >= DEATH_BREAKER {
+        agg.report.notes.insert(format!(
+            "campaign stopped early after {total_deaths} worker deaths / timeouts ({} of {} units done)",
+            agg.done_units, units
+        ));
+    }
+    if total_deaths > 12 {
+        agg.report.notes.insert(format!(
+            "{total_deaths} worker deaths; only the first 12 were attributed to a case by solo re-execution"
+        ));
+    }
+    for (unit, d) in deaths.into_iter().take(12) {
         println!("worker died in unit {unit}: {}", d.describe());
         let cases = ctx.unit_cases(unit);
         let mut attributed = false;
         let mut clean = Report::default();
+        // the limit for a solo case is generous for timeouts that were met once already
+        let only_first = 3usize;
+        let mut attributed_n = 0usize;
         for c in &cases {
-            let mut w = None;
-            let fs = findings_of(ctx_args, &mut w, c);
-            if same_class(&fs, "abort") || same_class(&fs, "hang") {
-                attributed = true;
-            }
-            for f in fs {
-                agg.findings.push((unit, f, Some(c.to_json())));
-            }
-            if !attributed {
-                // collect coverage of the cases that ran fine
-                if let Ok(r) = run_case_in_child(ctx_args, c) {
-                    let mut r = r;
-                    r.findings.clear();
+            match run_case_in_child(ctx_args, c) {
+                Ok(mut r) => {
+                    for f in r.findings.drain(..) {
+                        agg.findings.push((unit, f, Some(c.to_json())));
+                    }
                     clean.merge(r);
+                }
+                Err(death) => {
+                    let f = match death {
+                        Death::Signal(sig) => Some(Finding {
+                            property: abort_property(c),
+                            class: "abort".into(),
+                            fingerprint: format!("signal {sig}"),
+                            detail: format!("{}: process died with signal {sig}", c.label),
+                        }),
+                        Death::Timeout => Some(Finding {
+                            property: abort_property(c),
+                            class: "hang".into(),
+                            fingerprint: "timeout".into(),
+                            detail: format!("{}: no result within {:?}", c.label, SOLO_LIMIT),
+                        }),
+                        _ => None,
+                    };
+                    if let Some(f) = f {
+                        attributed = true;
+                        attributed_n += 1;
+                        agg.findings.push((unit, f, Some(c.to_json())));
+                        if attributed_n >= only_first {
+                            break;
+                        }
+                    }
                 }
             }
         }
